@@ -540,9 +540,16 @@ def pty_echo(data: bytes, echoctl: bool) -> bytes:
             a[3] &= ~termios.ECHOCTL
         termios.tcsetattr(s, termios.TCSANOW, a)
         out = bytearray()
+        import time as _t
         for i in range(0, len(data), 64):
-            os.write(m, data[i:i + 64])
-            while select.select([m], [], [], 0.02)[0]:
+            chunk = data[i:i + 64]
+            os.write(m, chunk)
+            want = len(out) + len(chunk)          # the echo is at least as long as what was typed
+            deadline = _t.monotonic() + 2.0
+            while len(out) < want and _t.monotonic() < deadline:
+                if select.select([m], [], [], 0.05)[0]:
+                    out += os.read(m, 4096)
+            while select.select([m], [], [], 0.03)[0]:
                 out += os.read(m, 4096)
         return bytes(out)
     finally:
@@ -614,7 +621,7 @@ class E2ESuite(Suite):
                             m.ch.READ_CHUNK_SIZE = case["chunk"]
                             for kind, args, st, outhex, rep in case["calls"]:
                                 full = ["/venv/bin/python", HELPER, str(st), outhex, str(rep)] + list(args)
-                                signal.alarm(20)
+                                signal.alarm(90)
                                 try:
                                     if kind == "exec":
                                         rc, out = m.exec(*full)
